@@ -149,17 +149,18 @@ def catRes {γ : Type} : List (Res (List γ)) → Res (List γ)
 /-! ### `hashMsiDir` -/
 
 /-- body of `hashMsiDir` once the children's contributions are known: sort, skip the two signature
-    names, streams and storages in sorted order, then the storage's own CLSID -/
-def hashDirOf (clsid : Bytes) (items : List (Item Bytes)) : Res Bytes := do
+    names *in the root storage only* (`isRoot := parent.Type == comdoc.DirRoot`), streams and
+    storages in sorted order, then the storage's own CLSID -/
+def hashDirOf (isRoot : Bool) (clsid : Bytes) (items : List (Item Bytes)) : Res Bytes := do
   let s ← sortItems items
-  let body ← catRes ((s.filter (fun it => !isSig it.1)).map (·.2))
+  let body ← catRes ((s.filter (fun it => !(isRoot && isSig it.1))).map (·.2))
   pure (body ++ clsid)
 
 mutual
 def hashItem : Node → Item Bytes
   | .mk m content kids =>
     (m, if m.typ = typStream then .ok content
-        else if m.typ = typStorage then hashDirOf m.clsid (hashItems kids)
+        else if m.typ = typStorage then hashDirOf false m.clsid (hashItems kids)
         else .ok [])
 def hashItems : List Node → List (Item Bytes)
   | [] => []
@@ -167,7 +168,7 @@ def hashItems : List Node → List (Item Bytes)
 end
 
 /-- `hashMsiDir(cdf, cdf.RootStorage(), d)`: the bytes written to `d` -/
-def hashMsiDir (root : Node) : Res Bytes := hashDirOf root.meta.clsid (hashItems root.kids)
+def hashMsiDir (root : Node) : Res Bytes := hashDirOf true root.meta.clsid (hashItems root.kids)
 
 /-! ### `prehashMsiDir` -/
 
@@ -195,17 +196,17 @@ def prehashDirent (m : Meta) : Res Bytes :=
     leBytes 4 m.state ++
     (if m.typ ≠ typRoot then leBytes 8 m.ctime ++ leBytes 8 m.mtime else []))
 
-def prehashDirOf (m : Meta) (items : List (Item Bytes)) : Res Bytes := do
+def prehashDirOf (isRoot : Bool) (m : Meta) (items : List (Item Bytes)) : Res Bytes := do
   let s ← sortItems items
   let self ← prehashDirent m
-  let body ← catRes ((s.filter (fun it => !isSig it.1)).map (·.2))
+  let body ← catRes ((s.filter (fun it => !(isRoot && isSig it.1))).map (·.2))
   pure (self ++ body)
 
 mutual
 def prehashItem : Node → Item Bytes
   | .mk m _ kids =>
     (m, if m.typ = typStream then prehashDirent m
-        else if m.typ = typStorage then prehashDirOf m (prehashItems kids)
+        else if m.typ = typStorage then prehashDirOf false m (prehashItems kids)
         else .ok [])
 def prehashItems : List Node → List (Item Bytes)
   | [] => []
@@ -213,7 +214,7 @@ def prehashItems : List Node → List (Item Bytes)
 end
 
 /-- `prehashMsiDir(cdf, cdf.RootStorage(), d2)`: the bytes whose hash is the MsiDigitalSignatureEx blob -/
-def prehashMsiDir (root : Node) : Res Bytes := prehashDirOf root.meta (prehashItems root.kids)
+def prehashMsiDir (root : Node) : Res Bytes := prehashDirOf true root.meta (prehashItems root.kids)
 
 /-- `DigestMSI`: the byte stream fed to `d` (the imprint is its hash).  `H` is the hash function. -/
 def digestMSI (H : Bytes → Bytes) (root : Node) (extended : Bool) : Res Bytes := do
@@ -246,11 +247,26 @@ def tarItems (path : List Nat) : List Node → List (Item (List Member))
   | n :: r => tarItem path n :: tarItems path r
 end
 
-/-- `MsiToTar`: the member list (archive/tar is taken to carry names and contents unchanged) -/
-def msiToTar (root : Node) : Res (List Member) := do
-  let pre ← prehashMsiDir root
-  let body ← tarDirOf [] root.meta.clsid (tarItems [] root.kids)
-  pure ((exmetaName, pre) :: body)
+/-- `checkMsiTarNames`: no entry of the root storage that the tar form cannot tell apart – a stream whose tar name
+    (MSI-decoded) is "__exmeta" or, without being its stored name, a signature name; a storage whose stored name is a
+    signature name -/
+def tarRootOkB (kids : List Node) : Bool :=
+  kids.all (fun n =>
+    if n.meta.typ = typStream then
+      !(decide (msiDecodeName (goName n.meta) = exmetaName) ||
+        (decide (msiDecodeName (goName n.meta) = sigName ∨ msiDecodeName (goName n.meta) = sigExName) &&
+          decide (msiDecodeName (goName n.meta) ≠ goName n.meta)))
+    else if n.meta.typ = typStorage then !isSig n.meta
+    else true)
+
+/-- `MsiToTar`: refusal of documents with reserved tar names in the root storage, then the member list
+    (archive/tar is taken to carry names and contents unchanged) -/
+def msiToTar (root : Node) : Res (List Member) :=
+  if !tarRootOkB root.kids then .err "tar-name"
+  else do
+    let pre ← prehashMsiDir root
+    let body ← tarDirOf [] root.meta.clsid (tarItems [] root.kids)
+    pure ((exmetaName, pre) :: body)
 
 /-- what `DigestMsiTar` writes to `d` for one member -/
 def tarContribution (H : Bytes → Bytes) (extended : Bool) (mb : Member) : Bytes :=
@@ -262,8 +278,59 @@ def tarContribution (H : Bytes → Bytes) (extended : Bool) (mb : Member) : Byte
 def digestMsiTar (H : Bytes → Bytes) (extended : Bool) (ms : List Member) : Bytes :=
   ms.flatMap (tarContribution H extended)
 
+
+/-! ### the code before the repair of Fmsi-tar (signature names were skipped in *every* storage by the direct walk,
+    `MsiToTar` refused nothing): kept so that the witness theorems remain statements about the original code -/
+
+def hashDirOfOrig (clsid : Bytes) (items : List (Item Bytes)) : Res Bytes := do
+  let s ← sortItems items
+  let body ← catRes ((s.filter (fun it => !isSig it.1)).map (·.2))
+  pure (body ++ clsid)
+
 mutual
-/-- the hypothesis of `tar_equals_direct`, executable: `DigestMsiTar` recognises the signature streams and the
+def hashItemOrig : Node → Item Bytes
+  | .mk m content kids =>
+    (m, if m.typ = typStream then .ok content
+        else if m.typ = typStorage then hashDirOfOrig m.clsid (hashItemsOrig kids)
+        else .ok [])
+def hashItemsOrig : List Node → List (Item Bytes)
+  | [] => []
+  | n :: r => hashItemOrig n :: hashItemsOrig r
+end
+
+def hashMsiDirOrig (root : Node) : Res Bytes := hashDirOfOrig root.meta.clsid (hashItemsOrig root.kids)
+
+def prehashDirOfOrig (m : Meta) (items : List (Item Bytes)) : Res Bytes := do
+  let s ← sortItems items
+  let self ← prehashDirent m
+  let body ← catRes ((s.filter (fun it => !isSig it.1)).map (·.2))
+  pure (self ++ body)
+
+mutual
+def prehashItemOrig : Node → Item Bytes
+  | .mk m _ kids =>
+    (m, if m.typ = typStream then prehashDirent m
+        else if m.typ = typStorage then prehashDirOfOrig m (prehashItemsOrig kids)
+        else .ok [])
+def prehashItemsOrig : List Node → List (Item Bytes)
+  | [] => []
+  | n :: r => prehashItemOrig n :: prehashItemsOrig r
+end
+
+def prehashMsiDirOrig (root : Node) : Res Bytes := prehashDirOfOrig root.meta (prehashItemsOrig root.kids)
+
+def digestMSIOrig (H : Bytes → Bytes) (root : Node) (extended : Bool) : Res Bytes := do
+  let pre ← if extended then (do let p ← prehashMsiDirOrig root; pure (H p)) else pure []
+  let main ← hashMsiDirOrig root
+  pure (pre ++ main)
+
+def msiToTarOrig (root : Node) : Res (List Member) := do
+  let pre ← prehashMsiDirOrig root
+  let body ← tarDirOf [] root.meta.clsid (tarItems [] root.kids)
+  pure ((exmetaName, pre) :: body)
+
+mutual
+/-- the hypothesis under which the *original* tar path agreed with the original direct walk, executable: `DigestMsiTar` recognises the signature streams and the
     metadata member by their *tar* names (path + MSI-decoded name), `hashMsiDir` by the stored name at every level.
     The two agree when every stream's tar name is a signature name exactly if its stored name is one and never
     "__exmeta", and no storage carries a signature name. -/
